@@ -103,7 +103,24 @@ func (n *UnquoteNode) Equal(other value.Value) bool {
 func (n *UnquoteNode) String() string {
 	var buff strings.Builder
 
-	buff.WriteString("unquote(")
+	// the keyword decides which kind of node the parser
+	// creates where more than one kind is possible
+	switch n.Kind {
+	case UNQUOTE_EXPRESSION_KIND:
+		buff.WriteString("unquote_expr(")
+	case UNQUOTE_PATTERN_KIND:
+		buff.WriteString("unquote_pattern(")
+	case UNQUOTE_TYPE_KIND:
+		buff.WriteString("unquote_type(")
+	case UNQUOTE_CONSTANT_KIND:
+		buff.WriteString("unquote_const(")
+	case UNQUOTE_IDENTIFIER_KIND:
+		buff.WriteString("unquote_ident(")
+	case UNQUOTE_INSTANCE_VARIABLE_KIND:
+		buff.WriteString("unquote_ivar(")
+	default:
+		buff.WriteString("unquote(")
+	}
 
 	exprStr := n.Expression.String()
 	if strings.ContainsRune(exprStr, '\n') {
